@@ -30,7 +30,8 @@ strchr strrchr strcmp strcpy strerror strlen strncasecmp strncmp strncpy strstr 
 htons ntohs htonl ntohl abort exit printf puts putchar __stack_chk_fail strnlen strdup strndup qsort bsearch floor ceil fabs pow sqrt round lround
 __isoc99_vsscanf sscanf __memcpy_chk __memset_chk __strcpy_chk __snprintf_chk __vsnprintf_chk __sprintf_chk __fprintf_chk __strcat_chk __strncpy_chk __fread_chk""".split())
 
-CFLAGS = ["-O1", "-g", "-fsanitize=address,undefined", "-fsanitize=float-cast-overflow", "-fno-sanitize-recover=all", "-fno-omit-frame-pointer", "-fno-common"]
+COV = ["-fprofile-instr-generate", "-fcoverage-mapping"] if os.environ.get("CJETSIM_COV") else []   # reach measurement only (bin/covreport), never used by a check
+CFLAGS = COV + ["-O1", "-g", "-fsanitize=address,undefined", "-fsanitize=float-cast-overflow", "-fno-sanitize-recover=all", "-fno-omit-frame-pointer", "-fno-common"]
 
 
 def sh(cmd, **kw):
@@ -155,7 +156,7 @@ def build(variant="default", repo=None, plain=False, quiet=True, c19=False):
                 defined.add(p[2])
     unmodelled = sorted(s for s in undefined - defined if not s.startswith(("sim_", "__asan", "__ubsan", "__sanitizer", "cjz_")) and s not in PURE_OK)
     libs = ["-lcrypt", "-lm", "-lz"]
-    sh(["clang++", "-fsanitize=address,undefined", "-o", os.path.join(tmp, "cjetsim")] + dobjs + simobjs + libs)
+    sh(["clang++", "-fsanitize=address,undefined"] + COV[:1] + ["-o", os.path.join(tmp, "cjetsim")] + dobjs + simobjs + libs)
     json.dump({"variant": variant, "unmodelled_symbols": unmodelled, "repo": repo, "key": key}, open(os.path.join(tmp, "build.json"), "w"))
     shutil.rmtree(os.path.join(tmp, "obj"), ignore_errors=True)
     os.makedirs(BUILD, exist_ok=True)
